@@ -67,6 +67,10 @@ type zzRec struct {
 	verifyHash   crypto.Hash
 	verifyCalled bool
 	verifyRaw    bool // verification consumed the raw signed bytes (SM2) rather than a digest
+	signPSS      bool // the signer was asked for an RSASSA-PSS signature (opts is *rsa.PSSOptions)
+	signSalt     int
+	verifyPSS    bool // the verifier checked an RSASSA-PSS signature
+	verifySalt   int
 }
 
 var zzR zzRec
@@ -76,6 +80,9 @@ type zzSigner struct{ pub crypto.PublicKey }
 func (s zzSigner) Public() crypto.PublicKey { return s.pub }
 func (s zzSigner) Sign(r io.Reader, digest []byte, opts crypto.SignerOpts) ([]byte, error) {
 	zzR.signInput, zzR.signHash, zzR.signCalled = digest, opts.HashFunc(), true
+	if po, ok := opts.(*rsa.PSSOptions); ok {
+		zzR.signPSS, zzR.signSalt = true, po.SaltLength
+	}
 	return vBytes("sig", 6, 6), nil
 }
 
@@ -85,6 +92,10 @@ func zzStubVerifyPKCS1v15(pub *rsa.PublicKey, h crypto.Hash, hashed, sig []byte)
 }
 func zzStubVerifyPSS(pub *rsa.PublicKey, h crypto.Hash, hashed, sig []byte, opts *rsa.PSSOptions) error {
 	zzR.verifyInput, zzR.verifyHash, zzR.verifyCalled = hashed, h, true
+	zzR.verifyPSS = true
+	if opts != nil {
+		zzR.verifySalt = opts.SaltLength
+	}
 	return nil
 }
 func zzStubEcdsaVerify(pub *ecdsa.PublicKey, hashed []byte, r, s *big.Int) bool {
@@ -167,7 +178,23 @@ func zzConsistent() bool {
 			return false
 		}
 	}
+	// the RSA signature scheme (PKCS#1 v1.5 or PSS, and the PSS salt convention) is the same on both sides
+	if zzR.signPSS != zzR.verifyPSS || (zzR.signPSS && zzR.signSalt != zzR.verifySalt) {
+		return false
+	}
 	return zzR.verifyRaw || zzR.verifyHash == 0 || zzR.verifyHash == zzR.signHash
+}
+
+// zzVerifyAlgo is the algorithm the verifier will see: the one the AlgorithmIdentifier written
+// by the create function decodes to. For RSA-PSS the identifier's parameters are DER, which is
+// opaque here, so the requested algorithm itself is taken (that the parameters decode back to
+// it is encoding/asn1's business and checked by the native branch).
+func zzVerifyAlgo(signer crypto.Signer, algo SignatureAlgorithm) SignatureAlgorithm {
+	if algo.isRSAPSS() {
+		return algo
+	}
+	_, ai, _ := signingParamsForPublicKey(signer.Public(), algo)
+	return getSignatureAlgorithmFromAI(ai)
 }
 
 // H09-signconv-cert: whenever CreateCertificate succeeds for a signer of some key family and a
@@ -178,7 +205,7 @@ func zzConsistent() bool {
 //verif:property C09
 //verif:expect-reach created
 //verif:bound signer family in {SM2, RSA, ECDSA-P256} x every declared SignatureAlgorithm value 0..18; DER encoding opaque (fresh bytes per asn1.Marshal call), hashes uninterpreted functions tagged by algorithm, sign/verify recording; on native replay a real key of the family signs a real certificate and checkSignature verifies it
-//verif:outside RSA-PSS variants (their parameters are DER); that the DER parses back to the same field values (reflection-driven encoding/asn1); byte-level tampering
+//verif:outside the DER of the RSA-PSS parameters (the scheme and salt convention asked of the signer are compared with what the verifier checks); that the DER parses back to the same field values (reflection-driven encoding/asn1); byte-level tampering
 //verif:stub-symbolic encoding/asn1.Marshal zzStubAsn1Marshal
 //verif:stub-symbolic encoding/asn1.Unmarshal zzStubAsn1Unmarshal09
 //verif:stub-symbolic github.com/tjfoc/gmsm/x509.marshalPublicKey zzStubMarshalPublicKey
@@ -199,8 +226,6 @@ func zzH_c09_signconv_cert() {
 	fam := vChoice("family", 3)
 	algo := SignatureAlgorithm(vChoice("algo", 19))
 	vAssume(zzSameFamily(fam, algo))
-	// RSA-PSS parameters are themselves DER (opaque here): outside the symbolic run
-	vAssume(!algo.isRSAPSS())
 	tag := "created-cert-verifies-under-signer/family" + strconv.Itoa(fam) + "/algo" + strconv.Itoa(int(algo))
 	tmpl := &Certificate{SerialNumber: big.NewInt(1), SignatureAlgorithm: algo,
 		Subject: pkix.Name{CommonName: "zz"}, NotBefore: time.Unix(1000, 0), NotAfter: time.Unix(2000000000, 0)}
@@ -231,8 +256,7 @@ func zzH_c09_signconv_cert() {
 		return
 	}
 	vReach("created")
-	_, ai, _ := signingParamsForPublicKey(signer.Public(), algo)
-	valgo := getSignatureAlgorithmFromAI(ai)
+	valgo := zzVerifyAlgo(signer, algo)
 	pub := signer.Public()
 	if sp, ok := pub.(*sm2.PublicKey); ok {
 		pub = &ecdsa.PublicKey{Curve: sp.Curve}
@@ -246,7 +270,7 @@ func zzH_c09_signconv_cert() {
 //
 //verif:property C09
 //verif:expect-reach created
-//verif:bound signer family in {SM2, RSA, ECDSA-P256} x every declared SignatureAlgorithm value 0..18 of that family or unset (RSA-PSS outside); encoding opaque, hashes uninterpreted, sign/verify recording; native replay signs and verifies a real request
+//verif:bound signer family in {SM2, RSA, ECDSA-P256} x every declared SignatureAlgorithm value 0..18 of that family or unset encoding opaque, hashes uninterpreted, sign/verify recording; native replay signs and verifies a real request
 //verif:outside as H09-signconv-cert
 //verif:stub-symbolic encoding/asn1.Marshal zzStubAsn1Marshal
 //verif:stub-symbolic encoding/asn1.Unmarshal zzStubAsn1Unmarshal09
@@ -266,7 +290,6 @@ func zzH_c09_signconv_csr() {
 	fam := vChoice("family", 3)
 	algo := SignatureAlgorithm(vChoice("algo", 19))
 	vAssume(zzSameFamily(fam, algo))
-	vAssume(!algo.isRSAPSS())
 	tag := "created-csr-verifies-under-signer/family" + strconv.Itoa(fam) + "/algo" + strconv.Itoa(int(algo))
 	tmpl := &CertificateRequest{SignatureAlgorithm: algo, Subject: pkix.Name{CommonName: "zz"}}
 	if vNative() {
@@ -291,8 +314,7 @@ func zzH_c09_signconv_csr() {
 		return
 	}
 	vReach("created")
-	_, ai, _ := signingParamsForPublicKey(signer.Public(), algo)
-	valgo := getSignatureAlgorithmFromAI(ai)
+	valgo := zzVerifyAlgo(signer, algo)
 	pub := signer.Public()
 	if sp, ok := pub.(*sm2.PublicKey); ok {
 		pub = &ecdsa.PublicKey{Curve: sp.Curve}
@@ -306,7 +328,7 @@ func zzH_c09_signconv_csr() {
 //
 //verif:property C09
 //verif:expect-reach created
-//verif:bound issuer key family in {SM2, RSA, ECDSA-P256} x every declared SignatureAlgorithm value of that family or unset (RSA-PSS outside); encoding opaque, hashes uninterpreted, sign/verify recording; native replay signs and verifies a real list
+//verif:bound issuer key family in {SM2, RSA, ECDSA-P256} x every declared SignatureAlgorithm value of that family or unset encoding opaque, hashes uninterpreted, sign/verify recording; native replay signs and verifies a real list
 //verif:outside as H09-signconv-cert; the older (*Certificate).CreateCRL always uses the default algorithm (covered by the unset case of the same code pattern)
 //verif:stub-symbolic encoding/asn1.Marshal zzStubAsn1Marshal
 //verif:stub-symbolic encoding/asn1.Unmarshal zzStubAsn1Unmarshal09
@@ -325,7 +347,6 @@ func zzH_c09_signconv_crl() {
 	fam := vChoice("family", 3)
 	algo := SignatureAlgorithm(vChoice("algo", 19))
 	vAssume(zzSameFamily(fam, algo))
-	vAssume(!algo.isRSAPSS())
 	tag := "created-crl-verifies-under-issuer/family" + strconv.Itoa(fam) + "/algo" + strconv.Itoa(int(algo))
 	issuer := &Certificate{KeyUsage: KeyUsageCRLSign, SubjectKeyId: []byte{1, 2, 3}, Subject: pkix.Name{CommonName: "zz"}}
 	tmpl := &RevocationList{SignatureAlgorithm: algo, Number: big.NewInt(1),
@@ -357,8 +378,7 @@ func zzH_c09_signconv_crl() {
 		return
 	}
 	vReach("created")
-	_, ai, _ := signingParamsForPublicKey(signer.Public(), algo)
-	valgo := getSignatureAlgorithmFromAI(ai)
+	valgo := zzVerifyAlgo(signer, algo)
 	pub := signer.Public()
 	if sp, ok := pub.(*sm2.PublicKey); ok {
 		pub = &ecdsa.PublicKey{Curve: sp.Curve}
